@@ -109,8 +109,7 @@ class LCDDocFilter(DocumentFilter):
     supported_styles = {
       StyleProperties.DisplayAlign: [],
       StyleProperties.Extent: [],
-      StyleProperties.Origin: [],
-      StyleProperties.Position: []
+      StyleProperties.Origin: []
     }
 
     if self.config.preserve_text_align:
@@ -123,6 +122,9 @@ class LCDDocFilter(DocumentFilter):
       supported_styles.update({StyleProperties.BackgroundColor: []})
 
     style_filter = SupportedStylePropertiesFilter(supported_styles)
+
+    # the position of a region is needed until its origin has been computed
+    region_style_filter = SupportedStylePropertiesFilter({**supported_styles, StyleProperties.Position: []})
 
     style_filter.process_initial_values(doc)
 
@@ -152,7 +154,7 @@ class LCDDocFilter(DocumentFilter):
       animation_filter.process_element(region)
 
       # cleanup styles
-      style_filter.process_element(region)
+      region_style_filter.process_element(region)
 
       # compute extent (the computed value of position depends on it)
       if region.get_style(StyleProperties.Extent) is None:
